@@ -135,7 +135,8 @@ func wswriteGen(r *rng, maxops int, w *bufio.Writer) {
 		case 0, 1, 2, 3:
 			fmt.Fprintf(w, "! %swrite %s %s\n", pre, []string{"text", "binary"}[r.intn(2)], wswritePayload(r, max))
 		case 4, 5:
-			fmt.Fprintf(w, "! %sframe %d %d %s\n", pre, r.pick(9, 9, 10, 1, 2, 0), r.pick(1, 1, 1, 0), ctlPayload())
+			fmt.Fprintf(w, "! %sframe %d %d %s%s\n", pre, r.pick(9, 9, 10, 1, 2, 0), r.pick(1, 1, 1, 0), ctlPayload(),
+				wswPick(r, "", "", "", " retype=1", " retype=2", " retype=9", " retype=10", " retype=8"))
 		case 6:
 			// long -> short -> none: the pooled frame is reused
 			fmt.Fprintf(w, "! %swrite binary @300:%d\n", pre, r.intn(251))
@@ -146,7 +147,7 @@ func wswriteGen(r *rng, maxops int, w *bufio.Writer) {
 		case 7:
 			fmt.Fprintf(w, "! %sflush\n", pre)
 		case 8:
-			fmt.Fprintf(w, "! %sframe %d 1 %s\n", pre, r.pick(1, 2), wswritePayload(r, max))
+			fmt.Fprintf(w, "! %sframe %d 1 %s%s\n", pre, r.pick(1, 2), wswritePayload(r, max), wswPick(r, "", "", " retype=1", " retype=2", " retype=10"))
 		case 9:
 			if r.intn(4) == 0 {
 				fmt.Fprintf(w, "! %sclose %d %s\n", pre, r.pick(1000, 1001, 1011), wsdHex(r.bytes(r.intn(20))))
@@ -275,6 +276,23 @@ func wswriteRun(script []string, w *bufio.Writer) {
 			flen = len(*fr)
 			if f[2] == "1" {
 				fr.SetFIN()
+			}
+			if len(f) > 4 && strings.HasPrefix(f[4], "retype=") {
+				// a caller-built frame whose type was set before and is changed now: the opcode is replaced, not merged
+				switch atoi(strings.TrimPrefix(f[4], "retype=")) {
+				case 0:
+					fr.SetContinuation()
+				case 1:
+					fr.SetText()
+				case 2:
+					fr.SetBinary()
+				case 8:
+					fr.SetClose()
+				case 9:
+					fr.SetPing()
+				case 10:
+					fr.SetPong()
+				}
 			}
 			fr.SetOpcode(websocket.Opcode(atoi(f[1])))
 			if f[3] != "none" {
